@@ -132,6 +132,8 @@ class AsyncioTransportStreamSocketAdapter(AsyncStreamTransport):
         chunks = [data for data in iterable_of_data if len(data)]
         del iterable_of_data
         if chunks:
+            # asyncio's writelines() does not check for a lost connection like write() does (CPython 3.12).
+            self.__protocol._check_for_connection_lost()
             self.__transport.writelines(chunks)
             # asyncio's writelines() does not re-evaluate the flow control state like write() does (CPython 3.12).
             # Setting the limits again forces it, so writer_drain() really waits for the buffer to be flushed.
